@@ -47,6 +47,31 @@ def fns_calling(prog, callee_path, prefix="block_handler::"):
     return out
 
 
+def fns_with_signature(prog, want, prefix="block_handler::"):
+    """crate functions under `prefix` whose argument types (display strings) contain, in order, the given substrings
+    (private helpers are anchored by what they take, not by their name or by which std function they happen to call)"""
+    out = []
+    for b in prog.bodies.values():
+        if b.get("promoted") or not b["path"].startswith(prefix) or "::tests::" in b["id"] or b.get("kind") == "Closure":
+            continue
+        tys = [prog.types[b["locals"][i + 1]["ty"]]["s"] for i in range(b["arg_count"])]
+        if len(tys) != len(want):
+            continue
+        if all(w in t if not w.startswith("=") else t == w[1:] for w, t in zip(want, tys)):
+            out.append(b)
+    return out
+
+
+def find_negotiate(prog):
+    """the block size negotiation: (Option<&BlockValue>, usize, usize, usize)"""
+    return fns_with_signature(prog, ["core::option::Option<&block_handler::block_value::BlockValue>", "=usize", "=usize", "=usize"])
+
+
+def find_serve(prog):
+    """the function cutting one block out of a cached reply: (&mut CoapRequest, BlockValue, &Packet)"""
+    return fns_with_signature(prog, ["&mut request::CoapRequest<", "=block_handler::block_value::BlockValue", "=&packet::Packet"])
+
+
 def model_to_bytes(I_, st, call):
     """Packet::to_bytes as verified by C04: Ok(vector of some length) or Err(MessageError)"""
     s2 = st.copy()
@@ -56,6 +81,23 @@ def model_to_bytes(I_, st, call):
     ok = EnumV("core::result::Result", {0: StructV([VecV(Aff.sym(n), None, ("encoded",))])}, dt)
     er = EnumV("core::result::Result", {1: StructV([I_.mat(s2, dt[2][1] if dt and len(dt[2]) > 1 else None, "err")])}, dt)
     return [(st, ok), (s2, er)]
+
+
+def last_more(s):
+    """1 / 0 when the state decides the more flag of the block value built last, else None"""
+    from absdom import holds
+    v = s.cells.get(("gh", "last_more"))
+    if not isinstance(v, IntV):
+        return None
+    if v.aff.is_const():
+        return v.aff.c
+    if v.cond is not None:
+        if holds(s, v.cond, True):
+            return 1
+        if holds(s, v.cond, False):
+            return 0
+    lo, hi = s.range(v.aff)
+    return lo if lo == hi else None
 
 
 class Trace:
@@ -71,7 +113,8 @@ class Trace:
             return
         I = new_interp(prog)
         self.I = I
-        negs = fns_calling(prog, "core::cmp::min")
+        self.serve_ids = set(b_["id"] for b_ in find_serve(prog))
+        negs = find_negotiate(prog)
         self.neg_id = negs[0]["id"] if len(negs) == 1 else None
         I.type_invariants[BV] = bv_invariant
         I.no_join_bodies.add(self.body["id"])
@@ -148,8 +191,10 @@ class Trace:
 
         def value_hook(I_, ctx, s, v):
             if isinstance(v, StructV) and len(v.fields) == 3 and bv_more is not None and isinstance(v.fields[bv_more], IntV) \
-                    and v.fields[bv_more].ty == (1, False) and v.fields[bv_more].aff.is_const() and ctx.body["path"].startswith("block_handler::BlockHandler"):
-                s.ghost["last_more"] = v.fields[bv_more].aff.c
+                    and v.fields[bv_more].ty == (1, False) and ctx.body["path"].startswith("block_handler::BlockHandler"):
+                # the more flag of the block value built last, as a value (it may be a constant on this path, or a
+                # boolean computed from lengths that a later branch decides)
+                s.cells[("gh", "last_more")] = v.fields[bv_more]
         I.value_hooks.append(value_hook)
 
         def opt_name(v):
@@ -170,6 +215,8 @@ class Trace:
                 r_ = call.args[1]
                 if isinstance(r_, StructV) and len(r_.fields) == 2 and isinstance(r_.fields[0], IntV):
                     s.ghost["splice_range"] = r_.fields[0].aff
+            elif cbody is not None and cbody.get("id") in tr.serve_ids:
+                s.ghost[("inj", "serve-called")] = True
             elif tr.neg_id is not None and cbody is not None and cbody.get("id") == tr.neg_id:
                 tr.events.append(("negotiate", call.args, s.copy(), call.site))
                 s.ghost[("inj", "negotiated")] = True
@@ -183,13 +230,15 @@ class Trace:
             elif p == "error::HandlingError::bad_request":
                 s.ghost[("inj", "bad_request")] = True
                 tr.events.append(("bad_request", s.copy(), call.site))
-            elif p == "core::slice::<impl [T]>::chunks" and call.ctx.body["path"].startswith("block_handler::"):
-                s.ghost[("inj", "served")] = True
-            elif p == "core::mem::take" and call.ctx.body["path"].startswith("block_handler::BlockHandler"):
+            elif p in ("core::mem::take", "core::option::Option::<T>::take") and call.ctx.body["path"].startswith("block_handler::BlockHandler"):
+                # mem::take(&mut opt) and opt.take() both leave None behind and hand out the old value
                 a = call.args[0]
-                if isinstance(a, RefV) and is_state_place(a.place, "buffer"):
+                if isinstance(a, RefV) and is_state_place(a.place, "buffer") and len(a.place.proj) == 1:
                     s.ghost[("inj", "buffer-taken")] = True
                     tr.events.append(("buffer-take", I_.read(s, a.place), call.site))
+                if isinstance(a, RefV) and is_state_place(a.place, "cached_response") and len(a.place.proj) == 1:
+                    tr.events.append(("cache-store", "None", None, s.copy(), call.site))
+                    s.ghost[("inj", "cache:None")] = True
         I.call_hooks.append(call_hook)
         gfo = find_body(prog, "packet::Packet::get_first_option")
         if gfo is not None:
@@ -201,10 +250,27 @@ class Trace:
                         s_.ghost["has_" + tp] = list(rv_.variants)[0] == 1
             I.return_hooks[gfo["id"]] = gfo_hook
             I.no_join_bodies.add(gfo["id"])
+        # "served from the cache" = the function cutting a block out of a cached reply returned Ok
+        for sv in find_serve(prog):
+            def serve_ret(I_, ctx, outs):
+                for s_, rv_ in outs:
+                    if isinstance(rv_, EnumV) and list(rv_.variants) == [0]:
+                        s_.ghost[("inj", "served")] = True
+            if sv["id"] != self.body["id"]:
+                I.return_hooks[sv["id"]] = serve_ret
         for nm in ("packet::Packet::get_first_option_as",):
             b_ = find_body(prog, nm)
             if b_ is not None:
                 I.no_join_bodies.add(b_["id"])
+
+                # the typed accessor is the handler's view of "does the request carry Block1 / Block2": mark it here
+                # too, so that the marks do not depend on how the accessor reaches the raw option state
+                def gfoa_hook(I_, ctx, outs):
+                    for s_, rv_ in outs:
+                        tp = opt_name(s_.cells.get((ctx.fid, 2)))
+                        if tp in ("Block1", "Block2") and isinstance(rv_, EnumV) and len(rv_.variants) == 1 and ("has_" + tp) not in s_.ghost:
+                            s_.ghost["has_" + tp] = list(rv_.variants)[0] == 1
+                I.return_hooks[b_["id"]] = gfoa_hook
         if setup is not None:
             setup(self, I, st)
         self.st0 = st
